@@ -7,6 +7,7 @@
 import Sbdf.Props.C03
 import Sbdf.Props.C04
 import Sbdf.Props.C10
+import Sbdf.Lemmas.Canon
 namespace Sbdf.C01
 open Spec
 
@@ -26,8 +27,8 @@ theorem buildCol_ok (names : List NameRow) (vals : List (Option Obj)) (m : Md)
     (hlen : vals.length = names.length)
     (hdist : names.Pairwise (fun a b => Md.nameEq a.name b.name = false))
     (hfresh : ∀ r ∈ names, ∀ e ∈ m.entries, Md.nameEq e.name r.name = false)
-    (hval : ∀ i (h1 : i < names.length) (h2 : i < vals.length) v, vals[i] = some v →
-      v.count = 1 ∧ ∀ d, names[i].dflt = some d → d.tid = v.tid ∧ d.count = 1) :
+    (hval : ∀ q ∈ names.zip vals, ∀ v, q.2 = some v →
+      v.count = 1 ∧ ∀ d, q.1.dflt = some d → d.tid = v.tid ∧ d.count = 1) :
     buildCol names vals m = .ok ⟨m.entries ++ rebuilt names vals, true⟩ := by
   induction names generalizing vals m with
   | nil =>
@@ -40,18 +41,16 @@ theorem buildCol_ok (names : List NameRow) (vals : List (Option Obj)) (m : Md)
     | cons o os =>
       simp only [List.length_cons, Nat.add_right_cancel_iff] at hlen
       rw [List.pairwise_cons] at hdist
-      have hval' : ∀ i (h1 : i < rs.length) (h2 : i < os.length) v, os[i] = some v →
-          v.count = 1 ∧ ∀ d, rs[i].dflt = some d → d.tid = v.tid ∧ d.count = 1 := by
-        intro i h1 h2 v hv
-        have := hval (i + 1) (by simp; omega) (by simp; omega) v (by simpa using hv)
-        simpa using this
+      have hval' : ∀ q ∈ rs.zip os, ∀ v, q.2 = some v →
+          v.count = 1 ∧ ∀ d, q.1.dflt = some d → d.tid = v.tid ∧ d.count = 1 := by
+        intro q hq v hv; exact hval q (by simp [hq]) v hv
       cases o with
       | none =>
         simp only [buildCol, rebuilt]
         exact ih os m hmod hlen hdist.2 (fun r' hr' => hfresh r' (by simp [hr'])) hval'
       | some v =>
-        have h0 := hval 0 (by simp) (by simp) v (by simp)
-        simp only [List.getElem_cons_zero] at h0
+        have h0 := hval (r, some v) (by simp) v rfl
+        simp only at h0
         have hadd : Md.add r.name v r.dflt m = .ok ⟨m.entries ++ [⟨cstr r.name, some v, r.dflt⟩], true⟩ := by
           unfold Md.add
           have hex : m.exists_ r.name = false := by
@@ -71,6 +70,167 @@ theorem buildCol_ok (names : List NameRow) (vals : List (Option Obj)) (m : Md)
           · exact hfresh r' (by simp [hr']) e h
           · subst h; simp only; rw [C11.nameEq_cstr]; exact hdist.1 r' hr') hval'
         simpa using this
+
+/-! ### the canonical layout of an API-built table is well formed -/
+
+/-- in a list with pairwise different names, two entries carrying the same name are the same entry -/
+theorem same_name_same_entry (l : List MdEntry) (hd : l.Pairwise (fun a b => Md.nameEq a.name b.name = false))
+    (a b : MdEntry) (ha : a ∈ l) (hb : b ∈ l) (h : Md.nameEq a.name b.name = true) : a = b := by
+  induction l with
+  | nil => simp at ha
+  | cons x xs ih =>
+    rw [List.pairwise_cons] at hd
+    simp only [List.mem_cons] at ha hb
+    rcases ha with ha | ha <;> rcases hb with hb | hb
+    · rw [ha, hb]
+    · subst ha; have := hd.1 b hb; rw [h] at this; simp at this
+    · subst hb; have := hd.1 a ha; rw [nameEq_symm' h] at this; simp at this
+    · exact ih hd.2 ha hb
+
+/-- what the API guarantees about a table metadata object, plus the size limits of the reader -/
+structure ApiTM (c : Cfg) (tm : TM) (kept : List MdEntry) : Prop where
+  fold : foldCols (tm.cols.flatMap (·.entries)) = .ok kept
+  tabInv : C10.Inv tm.table
+  colInv : ∀ col ∈ tm.cols, C10.Inv col
+  tabFit : ∀ e ∈ tm.table.entries, fitsStr c e.name.length ∧
+    (∀ v, e.value = some v → v.Fits c ∧ v.tid < 256) ∧ (∀ d, e.dflt = some d → d.Fits c ∧ d.tid < 256)
+  colFit : ∀ col ∈ tm.cols, ∀ e ∈ col.entries, fitsStr c e.name.length ∧
+    (∀ v, e.value = some v → v.Fits c ∧ v.tid < 256) ∧ (∀ d, e.dflt = some d → d.Fits c ∧ d.tid < 256)
+  tcnt : (tm.table.entries.length : Int) ≤ INT_MAX
+  ccnt : (tm.cols.length : Int) * 8 ≤ c.cap ∧ (tm.cols.length : Int) ≤ INT_MAX
+  ncnt : (kept.length : Int) * 8 ≤ c.cap ∧ (kept.length : Int) ≤ INT_MAX
+
+/-- the per-column metadata the reader rebuilds from the canonical layout -/
+def rebuiltCols (tm : TM) (kept : List MdEntry) : List Md :=
+  tm.cols.map (fun col => ⟨rebuilt (kept.map (fun k => ⟨k.name, entryTid k, k.dflt⟩))
+    (kept.map (fun k => (col.find k.name).bind (·.value))), true⟩)
+
+theorem entry_of_kept {tm : TM} {kept : List MdEntry} {k : MdEntry}
+    (hall : ∀ k ∈ kept, k ∈ tm.cols.flatMap (·.entries)) (hk : k ∈ kept) : ∃ col ∈ tm.cols, k ∈ col.entries := by
+  have := hall k hk
+  simp only [List.mem_flatMap] at this
+  exact this
+
+/-- The canonical physical layout of an API-built table metadata object satisfies every
+    well-formedness condition C04 asks for: the hypothesis `hok` of `file_roundtrip` holds. -/
+theorem canon_ok (c : Cfg) (tm : TM) (kept : List MdEntry) (h : ApiTM c tm kept) :
+    (C03.canonPhys tm kept).Ok c (rebuiltCols tm kept) := by
+  obtain ⟨hrep, hall, hdist⟩ := fold_facts _ kept h.fold
+  -- facts about a kept entry: it is a column entry, so it has a singleton value, a fitting name ...
+  have keptFacts : ∀ k ∈ kept, ∃ v, k.value = some v ∧ v.count = 1 ∧ entryTid k = v.tid ∧ v.tid < 256 ∧
+      fitsStr c k.name.length ∧ (∀ d, k.dflt = some d → d.tid = v.tid ∧ d.count = 1 ∧ d.Fits c ∧ d.tid < 256) := by
+    intro k hk
+    obtain ⟨col, hcol, hkc⟩ := entry_of_kept hall hk
+    obtain ⟨v, hv, hc1, hd⟩ := (h.colInv col hcol).single k hkc
+    obtain ⟨hfs, hfv, hfd⟩ := h.colFit col hcol k hkc
+    refine ⟨v, hv, hc1, by simp [entryTid, hv], (hfv v hv).2, hfs, ?_⟩
+    intro d hdd
+    exact ⟨(hd d hdd).1, (hd d hdd).2, (hfd d hdd).1, (hfd d hdd).2⟩
+  refine ⟨?_, ?_, ?_, ?_, ?_, ?_⟩
+  · -- table-level entries
+    intro e he
+    simp only [C03.canonPhys, C03.tableTriples, List.mem_filterMap] at he
+    obtain ⟨x, hx, hxe⟩ := he
+    obtain ⟨v, hv, hc1, hd⟩ := h.tabInv.single x hx
+    obtain ⟨hfs, hfv, hfd⟩ := h.tabFit x hx
+    simp only [hv, Option.map_some, Option.some.injEq] at hxe
+    subst hxe
+    refine ⟨hfs, ⟨(hfv v hv).1, hc1, (hfv v hv).2⟩, ?_⟩
+    intro d hdd
+    exact ⟨⟨(hfd d hdd).1, (hd d hdd).2, (hfd d hdd).2⟩, (hd d hdd).1⟩
+  · -- name rows
+    intro r hr
+    simp only [C03.canonPhys, List.mem_map] at hr
+    obtain ⟨k, hk, rfl⟩ := hr
+    obtain ⟨v, _, _, htid, hlt, hfs, hd⟩ := keptFacts k hk
+    refine ⟨hfs, by simp only; rw [htid]; exact hlt, ?_⟩
+    intro d hdd
+    obtain ⟨h1, h2, h3, h4⟩ := hd d hdd
+    exact ⟨⟨h3, h2, h4⟩, by simp only; rw [htid, h1]⟩
+  · simp only [C03.canonPhys]
+    have : (C03.tableTriples tm.table.entries).length ≤ tm.table.entries.length := by
+      simp only [C03.tableTriples]; exact List.length_filterMap_le _ _
+    have := h.tcnt; omega
+  · simpa [C03.canonPhys] using h.ccnt
+  · simpa [C03.canonPhys] using h.ncnt
+  · -- per column
+    simp only [C03.canonPhys, rebuiltCols]
+    have hgen : ∀ cols : List Md, (∀ col ∈ cols, col ∈ tm.cols) →
+        All2 (ColOk c (kept.map (fun k => (⟨k.name, entryTid k, k.dflt⟩ : NameRow))))
+          (cols.map (fun col => kept.map (fun k => (col.find k.name).bind (·.value))))
+          (cols.map (fun col => (⟨rebuilt (kept.map (fun k => (⟨k.name, entryTid k, k.dflt⟩ : NameRow)))
+            (kept.map (fun k => (col.find k.name).bind (·.value))), true⟩ : Md))) := by
+      intro cols
+      induction cols with
+      | nil => intro _; exact All2.nil
+      | cons col rest ih =>
+        intro hsub
+        simp only [List.map_cons]
+        refine All2.cons ?_ (ih (fun x hx => hsub x (by simp [hx])))
+        have hcol := hsub col (by simp)
+        -- facts about a present value of this column under a kept name
+        have present : ∀ k ∈ kept, ∀ x, (col.find k.name).bind (·.value) = some x →
+            MdObjOk c x ∧ x.tid = entryTid k ∧ x.count = 1 := by
+          intro k hk x hx
+          cases hf : col.find k.name with
+          | none => simp [hf] at hx
+          | some e =>
+            simp only [hf, Option.bind_some] at hx
+            have hmem : e ∈ col.entries := List.mem_of_find?_eq_some hf
+            have hname : Md.nameEq e.name k.name = true := by
+              have := List.find?_some hf; simpa using this
+            obtain ⟨v, hv, hc1, _⟩ := (h.colInv col hcol).single e hmem
+            rw [hv] at hx
+            have hxv : v = x := by simpa using hx
+            subst hxv
+            obtain ⟨_, hfv, _⟩ := h.colFit col hcol e hmem
+            obtain ⟨k', hk', hn', ht'⟩ := hrep e (by simp only [List.mem_flatMap]; exact ⟨col, hcol, hmem⟩)
+            have hkk : k' = k := same_name_same_entry kept hdist k' k hk' hk (nameEq_trans hn' hname)
+            subst hkk
+            exact ⟨⟨(hfv v hv).1, hc1, (hfv v hv).2⟩, by rw [ht']; simp [entryTid, hv], hc1⟩
+        refine ⟨by simp, ?_, ?_⟩
+        · intro q hq x hx
+          simp only [List.zip_map, List.mem_map] at hq
+          obtain ⟨⟨k1, k2⟩, hkz, rfl⟩ := hq
+          have : k1 = k2 ∧ k1 ∈ kept := by
+            have hself : ∀ (l : List MdEntry) (a b : MdEntry), (a, b) ∈ l.zip l → a = b ∧ a ∈ l := by
+              intro l; induction l with
+              | nil => intro a b h'; simp at h'
+              | cons y ys ihy =>
+                intro a b h'
+                simp only [List.zip_cons_cons, List.mem_cons, Prod.mk.injEq] at h'
+                rcases h' with ⟨rfl, rfl⟩ | h'
+                · exact ⟨rfl, by simp⟩
+                · obtain ⟨e1, e2⟩ := ihy a b h'; exact ⟨e1, by simp [e2]⟩
+            exact hself kept k1 k2 hkz
+          obtain ⟨rfl, hk⟩ := this
+          obtain ⟨h1, h2, _⟩ := present k1 hk x hx
+          exact ⟨h1, h2⟩
+        · apply buildCol_ok
+          · rfl
+          · simp
+          · rw [List.pairwise_map]; exact hdist
+          · intro r _ e he; simp [Md.empty] at he
+          · intro q hq v hv
+            simp only [List.zip_map, List.mem_map] at hq
+            obtain ⟨⟨k1, k2⟩, hkz, rfl⟩ := hq
+            have hself : ∀ (l : List MdEntry) (a b : MdEntry), (a, b) ∈ l.zip l → a = b ∧ a ∈ l := by
+              intro l; induction l with
+              | nil => intro a b h'; simp at h'
+              | cons y ys ihy =>
+                intro a b h'
+                simp only [List.zip_cons_cons, List.mem_cons, Prod.mk.injEq] at h'
+                rcases h' with ⟨rfl, rfl⟩ | h'
+                · exact ⟨rfl, by simp⟩
+                · obtain ⟨e1, e2⟩ := ihy a b h'; exact ⟨e1, by simp [e2]⟩
+            obtain ⟨rfl, hk⟩ := hself kept k1 k2 hkz
+            obtain ⟨_, htid, hc1⟩ := present k1 hk v hv
+            refine ⟨hc1, ?_⟩
+            intro d hdd
+            obtain ⟨v', _, _, htid', _, _, hd⟩ := keptFacts k1 hk
+            obtain ⟨h1, h2, _, _⟩ := hd d hdd
+            exact ⟨by rw [h1, ← htid', htid], h2⟩
+    exact hgen tm.cols (fun _ h' => h')
 
 /-! ### the table-level entries survive unchanged -/
 
@@ -113,6 +273,119 @@ theorem file_roundtrip (c : Cfg) (tm : TM) (slices : List (List CS)) (kept : Lis
   have : (C03.canonPhys tm kept).table.map (fun e => (⟨e.1, some e.2.1, e.2.2⟩ : MdEntry)) = tm.table.entries :=
     triples_roundtrip tm.table.entries (fun e he => by obtain ⟨⟨v, hv, _⟩, _⟩ := htab e he; exact ⟨v, hv⟩)
   simp only [C04.logicalTM, this]
+
+/-! ### the rebuilt column metadata is the original, as a name-keyed set -/
+
+theorem find_congr (col : Md) (a b : Bytes) (h : Md.nameEq a b = true) : col.find a = col.find b := by
+  unfold Md.find
+  congr 1
+  funext e
+  rw [nameEq_iff] at h
+  simp [Md.nameEq, h]
+
+theorem rebuilt_find_aux (col : Md) (l : List MdEntry) (n : Bytes) :
+    ((rebuilt (l.map (fun k => (⟨k.name, entryTid k, k.dflt⟩ : NameRow)))
+        (l.map (fun k => (col.find k.name).bind (·.value)))).find? (fun e => Md.nameEq e.name n)).bind (·.value) =
+    ((l.find? (fun k => Md.nameEq k.name n && ((col.find k.name).bind (·.value)).isSome)).bind
+      (fun k => (col.find k.name).bind (·.value))) := by
+  induction l with
+  | nil => simp [rebuilt]
+  | cons k ks ih =>
+    simp only [List.map_cons]
+    cases hv : (col.find k.name).bind (·.value) with
+    | none =>
+      simp only [rebuilt, List.find?_cons, hv, Option.isSome_none, Bool.and_false]
+      exact ih
+    | some v =>
+      simp only [rebuilt, List.find?_cons, hv, Option.isSome_some, Bool.and_true, C11.nameEq_cstr]
+      by_cases hn : Md.nameEq k.name n = true
+      · simp [hn, hv]
+      · have : Md.nameEq k.name n = false := by simpa using hn
+        simp only [this]
+        exact ih
+
+/-- looking a name up in the rebuilt column metadata gives the value the original column has
+    under that name (present or absent alike): the two are equal as name-keyed sets of values -/
+theorem rebuilt_lookup (col : Md) (kept : List MdEntry)
+    (hrep : ∀ e ∈ col.entries, ∃ k ∈ kept, Md.nameEq k.name e.name = true)
+    (n : Bytes) :
+    ((⟨rebuilt (kept.map (fun k => (⟨k.name, entryTid k, k.dflt⟩ : NameRow)))
+        (kept.map (fun k => (col.find k.name).bind (·.value))), true⟩ : Md).find n).bind (·.value) =
+    (col.find n).bind (·.value) := by
+  have h := rebuilt_find_aux col kept n
+  have e1 : ∀ (l : List MdEntry), (⟨l, true⟩ : Md).find n = l.find? (fun e => Md.nameEq e.name n) := fun _ => rfl
+  rw [e1, h]
+  cases hf : kept.find? (fun k => Md.nameEq k.name n && ((col.find k.name).bind (·.value)).isSome) with
+  | some k =>
+    have hk := List.find?_some hf
+    simp only [Bool.and_eq_true] at hk
+    simp only [Option.bind_some]
+    rw [find_congr col k.name n hk.1]
+  | none =>
+    simp only [Option.bind_none]
+    cases hc : col.find n with
+    | none => rfl
+    | some e =>
+      simp only [Option.bind_some]
+      cases hv : e.value with
+      | none => rfl
+      | some v =>
+        exfalso
+        have hc' : col.entries.find? (fun e => Md.nameEq e.name n) = some e := hc
+        have hmem : e ∈ col.entries := List.mem_of_find?_eq_some hc'
+        have hen : Md.nameEq e.name n = true := by have := List.find?_some hc'; simpa using this
+        obtain ⟨k, hk, hke⟩ := hrep e hmem
+        have hkn : Md.nameEq k.name n = true := nameEq_trans hke hen
+        have hfk : col.find k.name = some e := by rw [find_congr col k.name n hkn]; exact hc
+        have := List.find?_eq_none.mp hf k hk
+        simp [hkn, hfk, hv] at this
+
+/-! ### everything together, for tables built through the API -/
+
+theorem writable_of_fits {c : Cfg} {o : Obj} (h : o.Fits c) : Writable o := by
+  unfold Obj.Fits at h
+  split at h
+  · rename_i ha; exact .inl ha
+  · obtain ⟨sz, hsz, _⟩ := h; exact .inr ⟨sz, hsz⟩
+
+theorem va_writable_of_fits {c : Cfg} {va : VA} (h : va.Fits c) : va.Writable := by
+  cases va with
+  | plain o => exact writable_of_fits h.1
+  | rle rows runs vals => exact writable_of_fits h.2.2.1
+  | bit vt rows bits => trivial
+
+theorem cs_writable_of_fits {c : Cfg} {x : CS} (h : x.Fits c) : x.Writable :=
+  ⟨va_writable_of_fits h.1, fun p hp => va_writable_of_fits (h.2.2.2.2 p hp).2⟩
+
+/-- C01, end to end: for every table metadata object the API can build (invariants of C10) whose
+    column metadata folds, and every list of slices of caller-built column slices, all within
+    the reader's allocation limits: writing header, table metadata, slices and end marker and
+    reading the stream back (any trailing bytes, any column subset) gives OK on every call, the
+    same table-level entries, per column the same name-keyed metadata (rebuilt in name-list
+    order), every slice with every cell and property array exactly as written, and then
+    end-of-table at the end of the file. -/
+theorem api_roundtrip (c : Cfg) (tm : TM) (slices : List (List CS)) (kept : List MdEntry)
+    (h : ApiTM c tm kept) (hn : ∀ s ∈ slices, s.length = tm.cols.length) (hf : ∀ s ∈ slices, TSFits c s)
+    (sub : Option (List Bool)) (rest : Bytes) (fuel : Nat) (hfuel : slices.length < fuel) :
+    ∃ bytes, Emits (writeFile c ⟨tm, slices.map (fun s => ⟨s.map some⟩)⟩) bytes ∧
+      readFileF c sub fuel (bytes ++ rest).toArray =
+        ⟨.ok (1, 0), some (.ok ⟨⟨tm.table.entries, false⟩, (rebuiltCols tm kept).map Md.freeze⟩),
+         slices.map (fun s => ⟨maskFrom sub 0 s⟩), some (.tableEnd bytes.length)⟩ := by
+  obtain ⟨_, hall, _⟩ := fold_facts _ kept h.fold
+  have mdw : ∀ (m : Md), C10.Inv m → (∀ e ∈ m.entries, fitsStr c e.name.length ∧
+      (∀ v, e.value = some v → v.Fits c ∧ v.tid < 256) ∧ (∀ d, e.dflt = some d → d.Fits c ∧ d.tid < 256)) →
+      C03.MdWritable m := by
+    intro m hi hfit e he
+    obtain ⟨v, hv, _, _⟩ := hi.single e he
+    obtain ⟨_, hfv, hfd⟩ := hfit e he
+    exact ⟨⟨v, hv, writable_of_fits (hfv v hv).1⟩, fun d hd => writable_of_fits (hfd d hd).1⟩
+  refine file_roundtrip c tm slices kept (rebuiltCols tm kept) h.fold (mdw _ h.tabInv h.tabFit)
+    (fun col hcol => mdw col (h.colInv col hcol) (h.colFit col hcol)) ?_ ?_ (canon_ok c tm kept h) hn hf sub rest fuel hfuel
+  · intro k hk d hd
+    obtain ⟨col, hcol, hkc⟩ := entry_of_kept hall hk
+    exact writable_of_fits ((h.colFit col hcol k hkc).2.2 d hd).1
+  · intro s hs x hx
+    exact cs_writable_of_fits ((hf s hs).1 x hx)
 
 /-- with no subset every column of every slice comes back -/
 theorem full_read_returns_all (s : List CS) : maskFrom none 0 s = s.map some := maskFrom_none 0 s
